@@ -222,7 +222,7 @@ mutual
     | .app f as => if f = "," then seqArgs (.app f as) as else [.app f as]
     | t => [t]
   def seqArgs (whole : Term) : Args → List Term
-    | .cons a (.cons b .nil) => a :: seqGoals b
+    | .cons a (.cons b .nil) => seqGoals a ++ seqGoals b   -- ((A,B),C) is rotated to (A,(B,C))
     | _ => [whole]
 end
 
